@@ -589,3 +589,4 @@ V("R2-init-weights-stale-counts", ["C20"], "gmm", "            self.variances, s
 V("R2-init-unpacked-first", ["C20"], "gmm", "            self.variances, self.weights = kmeans_machine.get_variances_and_weights_for_each_cluster(data)", "            v_, w_ = kmeans_machine.get_variances_and_weights_for_each_cluster(data)\n            self.variances = v_\n            self.weights = w_", "same statistics unpacked into locals first", kind="benign")
 V("R2-iadd-alias-fastpath", ["C19", "C02"], "gmm", "        self.log_likelihood += other.log_likelihood\n        self.t += other.t\n", "        if self.t == 0:\n            self.init_fields(other.log_likelihood, other.t, other.n, other.sum_px, other.sum_pxx)\n            return self\n        self.log_likelihood += other.log_likelihood\n        self.t += other.t\n", "empty accumulator adopts the right operand's arrays: the next += corrupts that operand")
 V("R2-iadd-copy-fastpath", ["C19", "C02"], "gmm", "        self.log_likelihood += other.log_likelihood\n        self.t += other.t\n", "        if self.t == 0:\n            self.init_fields(other.log_likelihood, other.t, other.n.copy(), other.sum_px.copy(), other.sum_pxx.copy())\n            return self\n        self.log_likelihood += other.log_likelihood\n        self.t += other.t\n", "empty accumulator takes copies of the right operand's arrays", kind="benign")
+V("R2-kmeans-select-once", ["C06", "C20", "C04", "C13", "C15"], "kmeans", "    for i in range(n_clusters):\n        means_sum[i] = np.sum(data[closest_centroid_indices == i], axis=0)\n    for i in range(n_clusters):\n        variances_sum[i] = np.sum(np.square(data[closest_centroid_indices == i], dtype=float), axis=0)\n", "    for i in range(n_clusters):\n        cluster_data = data[closest_centroid_indices == i]\n        means_sum[i] = np.sum(cluster_data, axis=0)\n        variances_sum[i] = np.sum(np.square(cluster_data, dtype=float), axis=0)\n", "the two per-cluster loops merged, samples of the cluster selected once", kind="benign")
